@@ -103,6 +103,14 @@ long rt_total_allocs;     /* number of operator new calls */
 long rt_count_allocs;     /* number of operator new calls while rt_counting != 0 */
 int  rt_counting;
 
+/* allocation failure on demand (the default environment never fails an allocation): vf_new_fail_at(k) makes the k-th operator new from now on throw
+   std::bad_alloc. ir2c emits the test in front of every operator new of a TU whose harness uses it. */
+int rt_new_fail_k, rt_new_calls;
+void vf_new_fail_at(int k) { rt_new_fail_k = k; rt_new_calls = 0; }
+static int rt_new_fails(void) {
+  if (rt_new_fail_k != 0 && ++rt_new_calls == rt_new_fail_k) { rt_new_fail_k = 0; return 1; }
+  return 0;
+}
 static void *rt_new(uint64_t n) {
   void *p = malloc(n ? n : 1);
   __CPROVER_assume(p != 0);
@@ -205,6 +213,11 @@ static void rt_rethrow_exception(void **ep) {
   rt_exc_obj = o; rt_exc_pending = 1; rt_uncaught++;
 }
 static int rt_uncaught_exceptions(void) { return rt_uncaught; }
+static char rt_ti_bad_alloc[32];      /* stands for typeid(std::bad_alloc): only catch (...) handlers match it */
+static void rt_throw_bad_alloc(void) {
+  void *o = rt_cxa_allocate_exception(8);
+  rt_cxa_throw(o, rt_ti_bad_alloc, 0);
+}
 static void rt_eptr_addref(void **ep) { if (*ep) RT_HDR(*ep)->refs++; }
 static void rt_eptr_release(void **ep) { if (*ep) { rt_exc_release(*ep); *ep = 0; } }
 static void rt_eptr_ctor(void **ep, void *o) { *ep = o; if (o) RT_HDR(o)->refs++; }
